@@ -113,5 +113,9 @@ func (s SuffrageProof) Prove(previousState base.State) error {
 		return e.WithMessage(err, "prove suffrage")
 	}
 
+	if nodes := s.proof.Nodes(); !nodes[len(nodes)-1].Hash().Equal(s.m.Manifest().StatesTree()) {
+		return e.Errorf("root of proof does not match with states tree of manifest")
+	}
+
 	return nil
 }
